@@ -110,6 +110,12 @@ class RankRunner:
             self.pre = KFACPreconditioner(self.model, **self.kw)
         self.observe = set(observe)
         self.records = []
+        self.twin = None
+        if 'records' in self.observe:
+            # harness-owned twin without K-FAC: its hooks record layer inputs / output gradients
+            self.twin = kmodel.build_model(case['spec'], self.pd)
+            self.twin_names = kmodel.kfac_layer_names(self.twin)
+            self.recorder = kmodel.Recorder(self.twin, self.twin_names)
         self.sched = None
         if case.get('scheduler'):
             self._mk_sched()
@@ -134,6 +140,13 @@ class RankRunner:
         scale = c.get('loss_scale') or 1.0
         loss = sum(kmodel.loss_of(yc, ls, c['N'], c.get('loss_style', 'mix')) for yc, ls in zip(y.split(c['N'], 0), lseeds))
         (loss * scale).backward()
+        if self.twin is not None:
+            self.twin.train(self.model.training)
+            self.recorder.enabled = self.model.training
+            y2 = self.twin(x)
+            loss2 = sum(kmodel.loss_of(yc, ls, c['N'], c.get('loss_style', 'mix')) for yc, ls in zip(y2.split(c['N'], 0), lseeds))
+            (loss2 * scale).backward()
+            self.twin.zero_grad(set_to_none=True)
         return y.detach()
 
     def run(self, program):
@@ -160,6 +173,9 @@ class RankRunner:
                 for micro in range(c.get('accum', 1)):
                     simdist.set_phase(f'op{i}:train/fwdbwd')
                     self._forward_backward(op['seed'], micro, feed)
+                    if self.twin is not None:
+                        r = self.recorder.pop()
+                        rec.setdefault('recs', []).append({n: (r[n][0][0], r[n][1][0]) for n in self.twin_names})
                 simdist.set_phase(f'op{i}:train/ddp')
                 scale = c.get('loss_scale') or 1.0
                 for p in self.model.parameters():
@@ -200,12 +216,17 @@ class RankRunner:
                         if p.grad is not None and torch.isfinite(p.grad).all():
                             # bounded update (identical on every rank because the gradients are)
                             p.add_(p.grad / max(1.0, p.grad.abs().max().item()), alpha=-c.get('sgd_lr', 0.05))
+                if self.twin is not None:
+                    kmodel.copy_params(self.model, self.twin)
             elif kind == 'eval':
                 self.model.eval()
                 self.model.zero_grad(set_to_none=True)
                 self._forward_backward(op['seed'], 0, feed)
                 self.model.zero_grad(set_to_none=True)
                 self.model.train()
+                if self.twin is not None:
+                    self.recorder.enabled = True
+                    self.recorder.pop()
             elif kind == 'state_dict':
                 if op.get('ranks') is None or self.rank in op['ranks']:
                     sd = self.pre.state_dict(include_factors=op.get('include_factors', True))
